@@ -38,8 +38,8 @@ CONFIGS = {
                             StepsBack="{1}", WithRtcp="TRUE", MaxLen=4, MaxSent=4)),
         # more live streams than the context high-water mark + 60 s silences: the documented idle-context eviction
         # (the model relaxes the demand after an eviction; what a never-forgetting receiver would accept is EXT)
-        ("idle/churn", conf(Ssrcs="{1, 2, 3}", SeqAlpha="{15, 0, 1}", StartIdx="{16}", StepsFwd="{1}", StepsBack="{}",
-                            WithTick="TRUE", MaxLen=5, MaxSent=4)),
+        ("idle/churn", conf(Ssrcs="{1, 2, 3}", SeqAlpha="{15, 0, 1, 2}", StartIdx="{16}", StartFresh="FALSE", StepsFwd="{1}",
+                            StepsBack="{}", WithTick="TRUE", WithRtcp="TRUE", MaxLen=5, MaxSent=6)),
     ],
     ("C04", "thorough"): [
         ("roc/bits4", conf(StartIdx="{15, 24, 40}", MaxLen=6, MaxSent=5)),
@@ -47,8 +47,8 @@ CONFIGS = {
                                  MaxLen=6, MaxSent=5)),
         ("multi/rtcp", conf(Ssrcs="{1, 2, 3}", SeqAlpha="{0, 1, 14, 15}", StartIdx="{15}", StepsFwd="{1, 2}",
                             StepsBack="{1}", WithRtcp="TRUE", MaxLen=5, MaxSent=5)),
-        ("idle/churn", conf(Ssrcs="{1, 2, 3}", SeqAlpha="{15, 0, 1}", StartIdx="{16}", StepsFwd="{1}", StepsBack="{}",
-                            WithTick="TRUE", MaxLen=7, MaxSent=5)),
+        ("idle/churn", conf(Ssrcs="{1, 2, 3}", SeqAlpha="{15, 0, 1, 2}", StartIdx="{16}", StartFresh="FALSE", StepsFwd="{1}",
+                            StepsBack="{}", WithTick="TRUE", WithRtcp="TRUE", MaxLen=7, MaxSent=6)),
     ],
     ("C05", "quick"): [
         ("forge/bits4", conf(ForgedSsrcs="{9}", StepsFwd="{1, 2, 7}", StepsBack="{1, 7}", WithRtcp="TRUE",
@@ -100,10 +100,11 @@ SIM = {
                                MaxLen=16, MaxSent=8), 16, 200)],
 }
 
-INVARIANTS = "TypeOK SenderAgreement IndexAgreement NoPhantomIndex NoLossByEviction Rejected RtcpAccepted"
+INVARIANTS = "TypeOK SenderAgreement IndexAgreement NoPhantomIndex NoLossByEviction SrtcpIndexFresh Rejected RtcpAccepted"
 # configurations that describe the pinned code's open deviation generate with it switched on (and without the invariant
 # it breaks): their expectations then match the code, and the replayer reports the property-level consequence
-OPEN_DEV = {"idle/churn": ("EvictLosesState", "NoLossByEviction"), "churn": ("EvictLosesState", "NoLossByEviction")}
+_EVICT_BREAKS = ("SenderAgreement", "IndexAgreement", "NoPhantomIndex", "NoLossByEviction", "SrtcpIndexFresh")
+OPEN_DEV = {"idle/churn": ("EvictLosesState", _EVICT_BREAKS), "churn": ("EvictLosesState", _EVICT_BREAKS)}
 PROPERTIES = "ForgeUnchanged AcceptanceStable RejectIsNoop IndexMonotone"
 
 
@@ -111,7 +112,7 @@ def write_cfg(path, c, emit, deviations="{}", props='{"C04", "C05", "EXT"}', emi
     lines = ["SPECIFICATION Spec", "CONSTANTS"]
     for k, v in c.items():
         lines.append(f"  {k} = {v}")
-    inv = " ".join(i for i in INVARIANTS.split() if i != drop_inv)
+    inv = " ".join(i for i in INVARIANTS.split() if i not in (drop_inv or ()))
     lines += [f"  Deviations = {deviations}", f"  Props = {props}", "VIEW view", f"INVARIANTS {inv}",
               f"PROPERTIES {PROPERTIES}", f"ACTION_CONSTRAINT {emit_op if emit else 'NoEmit'}", "CHECK_DEADLOCK FALSE", ""]
     with open(path, "w") as f:
@@ -270,16 +271,6 @@ def run(pid, tier, rule_text, assumptions, bits="few"):
         total_edges += summ["edges"]
         for k, v in summ.items():
             tot[k] = tot.get(k, 0) + v
-    if pid == "C04":
-        # sender-side counterpart of the idle-context eviction (fixed scenario, real 33 streams; see design note)
-        out = os.path.join(ck.dir, "txprobe.ndjson")
-        p = vlib.run_bin("srtp", ["txprobe", out], timeout=300)
-        if p.returncode != 0:
-            raise vlib.ToolError(f"srtp txprobe failed: {p.stderr[-1000:]}")
-        rows = vlib.read_ndjson(out)
-        classify(ck, pid, rows, "txprobe")
-        ck.cov["txprobe"] = [r for r in rows if r.get("type") == "txprobe"]
-        _rm(out)
     ck.cov["traces_validated_against_impl"] = total_edges
     ck.cov["evaluations"] = tot.get("evaluations", 0)
     ck.cov["distinct_nontrivial"] = total_nt
@@ -317,7 +308,7 @@ SELF_DEV = {
     "RtcpIndexBeforeAuth": (conf(StepsFwd="{1}", WithRtcp="TRUE", RtcpForgeKinds='{"reindex", "wrongkey"}', MaxLen=3),
                             ("ForgeUnchanged",)),
     "TableBeforeAuth\", \"EvictLosesState": (CONFIGS[("C05", "quick")][2][1], ("ForgeUnchanged", "AcceptanceStable")),
-    "EvictLosesState": (CONFIGS[("C04", "quick")][3][1], ("NoLossByEviction",)),
+    "EvictLosesState": (CONFIGS[("C04", "quick")][3][1], ("NoLossByEviction", "SenderAgreement", "IndexAgreement")),
 }
 
 
